@@ -17,11 +17,40 @@ BA = "mila::bin_archive::BinArchive"
 ELEM = {"std::vec::Vec<u8>": 1, "std::vec::Vec<u32>": 4}
 
 
+def resolve_through_constructors(facts, t, depth=0):
+    """`S::new(x).field` / `S { field: x, .. }.field` -> x : a value read back from a struct that was just built
+    from it (a reader object carrying the caller's endianness)."""
+    t = strip_refs(t)
+    if depth > 4 or t[0] != "field" or len(t) < 4:
+        return t
+    base = strip_refs(resolve_through_constructors(facts, t[1], depth + 1)) if strip_refs(t[1])[0] == "field" else strip_refs(t[1])
+    while base[0] == "deref":
+        base = strip_refs(base[1])
+    idx = t[3]
+    if base[0] == "agg" and base[1] == "adt" and len(base) > 4 and isinstance(idx, int) and idx < len(base[4]):
+        return resolve_through_constructors(facts, base[4][idx], depth + 1)
+    if base[0] == "call" and base[1] and base[1].startswith("mila::"):
+        cb = facts.raw_body(base[1])
+        if cb is not None:
+            aggs = [cb.term_of_rvalue(st["rv"]) for bi, si, st in cb.stmts()
+                    if st["k"] == "assign" and st["lhs"]["l"] == 0 and not st["lhs"]["p"] and st["rv"]["k"] == "agg" and st["rv"].get("ak") == "adt"]
+            if len(aggs) == 1 and isinstance(idx, int) and idx < len(aggs[0][4]):
+                v = strip_refs(aggs[0][4][idx])
+                if v[0] == "param" and 1 <= v[1] <= len(base[2]):
+                    return resolve_through_constructors(facts, base[2][v[1] - 1], depth + 1)
+                if v[0] in ("const", "agg"):
+                    return v
+    return t
+
+
 def run(facts, rep, ctx):
     R1 = rep.rule("R01.1", "text origin = sum of element-size x length over all sections emitted before the text section (+4 per string pointer still to be pushed)", floor=1)
     R2 = rep.rule("R01.2", "reader origin coefficients (1,4,8) agree with the writer's header words and entry sizes", floor=3)
     R3 = rep.rule("R01.3", "one header-size constant on both sides", floor=5)
     R4 = rep.rule("R01.4", "label record (address, name offset) and pointer entries are read in the order they are written; string/pointer classification threshold is the data size", floor=3)
+    R6 = rep.rule("R01.6", "archive adders the reader registers entries through (write_string/write_pointer/write_label/write_c_string): store the payload on every non-error path, accept every payload class the image can hold (empty text, destination = size), never remove by payload", floor=4)
+    import annot
+    annot.contract(facts, rep, R6, ("write_string", "write_pointer", "write_label", "write_c_string"))
     ser = facts.body(BA + "::serialize")
     rd = facts.body(BA + "::from_bytes")
     if ser is None or rd is None or not ser.pub or not rd.pub:
@@ -36,9 +65,13 @@ def run(facts, rep, ctx):
         sh = nm.rsplit("::", 1)[-1]
         if sh in ("read_u32", "read_u16") and "EndianAwareReader" in nm:
             e = strip_refs(rd.term_of_operand(t["args"][-1]))
+            e = resolve_through_constructors(facts, e)
             if e[0] == "param" and rd.local_ty(e[1]).endswith("Endian"):
                 nrd += 1
                 rep.ok(R5, {"read": sh, "endian": "caller's", "line": t["line"]})
+            elif not (e[0] == "agg" and not (e[4] if len(e) > 4 else None)) and e[0] != "const":
+                # neither the caller's parameter nor a fixed byte order: where the value comes from is not followed
+                rep.inconc(R5, "from_bytes reads a %s with byte order %s: origin not resolved" % (sh[5:], fmt(e)[:60]))
             else:
                 rep.violation(R5, rd.name, "endian-arg:%s" % fmt(norm(e))[:30], "from_bytes reads a %s with byte order %s instead of the caller's" % (sh[5:], fmt(e)[:40]), "%s:%s" % (rd.file, t["line"]))
         elif sh in ("from_le_bytes", "from_be_bytes", "from_ne_bytes"):
@@ -154,6 +187,8 @@ def run(facts, rep, ctx):
         for i in range(3):
             if i < len(coeff) and i < len(wc) and coeff[i] == wc[i] and wc[i] is not None:
                 rep.ok(R2, {"field": names[i], "bytes_per_unit": coeff[i]})
+            elif i >= len(wc) or wc[i] is None:
+                rep.inconc(R2, "writer: bytes emitted per unit of the %s are not recognised" % names[i])
             else:
                 rep.violation(R2, rd.name, "coeff:" + names[i].replace(" ", "-"),
                               "reader weighs the %s by %s bytes, the writer emits %s bytes per unit" % (names[i], coeff[i] if i < len(coeff) else "?", wc[i] if i < len(wc) else "?"),
@@ -276,6 +311,8 @@ def writer_model(facts, rep, R1, ser):
     evs.sort(key=lambda e: e[0])
     sections = []
     header_words = []
+    words_per_item = {}
+    last_loop = None
     for _, bb, nm, args, t in evs:
         enc = enclosing_loops(loops, bb)
         if nm == "write_u32" and not enc:
@@ -296,7 +333,13 @@ def writer_model(facts, rep, R1, ser):
                 for el in arr:
                     header_words.append(affine(el, nv))
             else:
-                sections.append(("u32", root_of(src)))
+                r__ = root_of(src)
+                if sections and sections[-1] == ("u32", r__) and r__ is not None and last_loop == enc[0]["head"]:
+                    # a second word per iteration of the same loop: a table of records
+                    words_per_item[r__] = words_per_item.get(r__, 1) + 1
+                else:
+                    sections.append(("u32", r__))
+                last_loop = enc[0]["head"]
         elif nm == "write_all":
             sections.append(("bytes", root_of(args[0])))
         elif nm == "seek":
@@ -319,18 +362,28 @@ def writer_model(facts, rep, R1, ser):
     hw2, hw3, hw4 = header_words[1], header_words[2], header_words[3]
     sizes.append(1 if hw2 is not None and all(v == 1 for v in hw2[0].values()) and all(len_atom(k) for k in hw2[0]) else None)
 
+    def elem(la):
+        """bytes emitted per element of the vector: its element size, provided the loop writes that many words"""
+        ty = nv.local_ty(la[1])
+        k_ = words_per_item.get(la, 1)
+        if ty in ELEM and k_ == 1:
+            return ELEM[ty]
+        if ty == "std::vec::Vec<(u32, u32)>" and k_ == 2:
+            return 8
+        return None
+
     def unit(a):
         if a is None or len(a[0]) != 1 or a[1] != 0:
             return None
         k, v = list(a[0].items())[0]
         if k[0] == "div":
             la = len_atom(k[1])
-            if la and la[0] == "local":
-                return ELEM.get(nv.local_ty(la[1]), 0) * k[2] // v if v else None
+            if la and la[0] == "local" and elem(la) is not None:
+                return elem(la) * k[2] // v if v else None
             return None
         la = len_atom(k)
-        if la and la[0] == "local":
-            return ELEM.get(nv.local_ty(la[1]), 0) // v if v else None
+        if la and la[0] == "local" and elem(la) is not None:
+            return elem(la) // v if v else None
         return None
     sizes.append(unit(hw3))
     sizes.append(unit(hw4))
